@@ -184,6 +184,13 @@ Definition compute_prop (d : doc) (par : option (kind * smap)) (st : smap) (p : 
         Ok (sset st p (VPad b' e' a' s'))))))
     | _, _ => Err errCompute
     end
+  else if p =? p_Disparity then
+    match sget st p with
+    | Some (VLen l) =>
+        bind (compute_length l (Some (rw (qz 100))) (get_len st p_FontSize) (Some (c_w d)) (Some (px_w d))) (fun l' =>
+        Ok (sset st p (VLen l')))
+    | _ => Err errCompute
+    end
   else Ok st.
 
 (* ISD._compute_styles: the ordered properties that are in the to-be-computed set *)
@@ -435,7 +442,7 @@ Definition finish_element (a : attrs) (st : smap) (children : list elem) : res (
   if negb (push_children_ok k children) && is_nonempty_l children then Err errRubyChildren
   else
     let children := match k with
-                    | KP | KRt | KRtc => match children with [] => [] | _ => lwsp_children (isd_attrs a st) children end
+                    | KP | KRt | KRtc | KRp => match children with [] => [] | _ => lwsp_children (isd_attrs a st) children end
                     | _ => children
                     end in
     let st' := strip_inapplicable k st in
